@@ -385,9 +385,9 @@ func (p *packer) run(id string, f string, vals []pm.V, extras bool) {
 			}
 		}
 		p.report(fs, in)
-	} else if c.WantSample() && st == pm.OK && F.NValues() >= 2 && len(f) > 6 {
+	} else if p.e.wantSample(2) && st == pm.OK && F.NValues() >= 2 && len(f) > 6 {
 		if P, pst, _ := F.Pack(vals); pst == pm.OK {
-			c.Sample(map[string]interface{}{"format": f, "values": showVs(vals), "packed_bytes": fmt.Sprintf("% x", P.Bytes), "unpack": showVs(P.Back) + ", " + strconv.Itoa(len(P.Bytes)+1)})
+			p.e.sample(map[string]interface{}{"format": f, "values": showVs(vals), "packed_bytes": fmt.Sprintf("% x", P.Bytes), "unpack": showVs(P.Back) + ", " + strconv.Itoa(len(P.Bytes)+1)})
 		}
 	}
 	p.e.hookReports(in)
@@ -417,6 +417,12 @@ func (p *packer) reduce(F *pm.Format, f string, vals []pm.V) []finding {
 		}
 		if fs := p.check(single, []pm.V{v}, false); len(fs) > 0 {
 			return fs
+		}
+		if it.Align > 1 {
+			// alignment faults only show at an unaligned offset
+			if fs := p.check(pre+"!"+strconv.Itoa(it.Align)+"x"+it.Text, []pm.V{v}, false); len(fs) > 0 {
+				return fs
+			}
 		}
 	}
 	return nil
@@ -778,7 +784,7 @@ func runPack(c *vp.Child) {
 	}
 
 	// (3) PRNG multi-directive formats
-	n := c.Pick(40000, 1600000) / c.NB
+	n := c.Pick(100000, 1200000) / c.NB
 	maxItems := c.Pick(4, 6)
 	for i := 0; i < n; i++ {
 		f := genFormat(p.r, maxItems)
@@ -796,7 +802,7 @@ func runPack(c *vp.Child) {
 		p.run("rand "+strconv.Itoa(i), f, vals, p.r.Intn(3) == 0)
 		c.Feature("random-formats", 1)
 		for _, it := range F.Items {
-			c.Feature("directive-kind-"+strconv.Itoa(int(it.Kind)), 1)
+			c.Feature("directive-"+[...]string{"signed-int", "unsigned-int", "float", "c-fixed", "z", "s-length-prefixed", "x-padding", "X-align"}[it.Kind], 1)
 		}
 	}
 }
@@ -854,9 +860,9 @@ func runUnpackData(c *vp.Child) {
 		}
 		p.report(fs, in)
 		c.NonTrivial(vp.Hash("unpack", f, data, strconv.Itoa(init)))
-		if c.WantSample() && len(fs) == 0 && F.NValues() >= 2 {
+		if e.wantSample(1) && len(fs) == 0 && F.NValues() >= 2 && what == "corrupted" {
 			if want, next, st, _ := F.Unpack([]byte(data), init-1); st == pm.OK {
-				c.Sample(map[string]interface{}{"unpack_format": f, "data_bytes": fmt.Sprintf("% x", data), "init": init, "result": showVs(want) + ", " + strconv.Itoa(next+1)})
+				e.sample(map[string]interface{}{"unpack_format": f, "data_bytes": fmt.Sprintf("% x", data), "init": init, "result": showVs(want) + ", " + strconv.Itoa(next+1)})
 			}
 		}
 		e.hookReports(in)
@@ -915,7 +921,7 @@ func runUnpackData(c *vp.Child) {
 	}
 
 	// (2) PRNG formats on corrupted / truncated / random data
-	n := c.Pick(40000, 1600000) / c.NB
+	n := c.Pick(120000, 1500000) / c.NB
 	maxItems := c.Pick(4, 6)
 	for i := 0; i < n; i++ {
 		f := genFormat(r, maxItems)
